@@ -1,4 +1,4 @@
-// Reproduction of finding D12 (property C15) against the real crate, public API only.
+// Reproduction of finding D13 (property C15; the agent that wrote this file called it D12) against the real crate, public API only.
 // Place as tests/repro_pt_handles.rs in a checkout of fuse-backend-rs and run `cargo test --offline --test repro_pt_handles`.
 //
 // C15: "... Once the client has released every handle and forgotten every inode, the server holds no more open file descriptors,
@@ -62,7 +62,7 @@ fn run(no_open: bool) {
 
 // one test (the descriptor count is per process, so the two configurations must not run concurrently)
 #[test]
-fn d12_failed_create_leaks_inode_reference() {
+fn d13_failed_create_leaks_inode_reference() {
     run(false);
     run(true);
 }
